@@ -12,5 +12,6 @@ CONSTANT Bits = {8, 16}
 CONSTANT Flips = {FALSE, TRUE}
 CONSTANT Accs = {"U55_128", "U55_32", "U65_512"}
 CONSTANT ClearOnCompile = FALSE
+CONSTANT ExtendedKey = FALSE
 CONSTANT Assume = FALSE
 CHECK_DEADLOCK FALSE
